@@ -31,6 +31,11 @@ def oracle_core(pid, case, accepted, set_ok, set_errs, solve_errs, calls, sig=No
     if spec.has_chained_bindings(tree):
         return out_msgs          # chained bindings are outside the documented form (DESIGN.md, C10 scope note)
     item_errs = [d for d in set_errs if d[0] in ("DItem", "DUnparsed")]
+    if pid == "C12":
+        bad_lits = [p["id"] for x in spec.all_sets(tree) for p in x["providers"] if p.get("_lit_defect")]
+        if bad_lits and accepted:
+            out_msgs.append("struct providers %s name a field with a literal that is not exactly a field name, yet the program was accepted" % bad_lits)
+        return out_msgs
     if pid == "C05":
         if (dups or nested_dups) and accepted:
             out_msgs.append("types %s have two sources in the closure but the set was accepted" % sorted(dups))
@@ -383,6 +388,8 @@ PROPS = {
             "assumptions": ["result kinds are abstracted to what funcOutput can distinguish (identity with error / func())"]},
     "C10": {"theorems": ["C10_phase_order_independent", "C05_never_picks"], "engines": [eng_synth, eng_prog], "assumptions": [SYNTH_NOTE]},
     "C11": {"theorems": ["C11_colocated"], "engines": [eng_synth, eng_prog], "assumptions": [SYNTH_NOTE, "Go's method-set rule (types.Implements) is go/types' and is not modelled"]},
+    "C12": {"theorems": ["C12_check_field_sound", "C12_star_selects_unprevented", "C12_struct_provider_outputs"], "engines": [eng_prog],
+            "assumptions": ["field names are ASCII; strconv.Quote and strings.EqualFold are modelled on ASCII identifiers", "FieldsOf name resolution shares checkField; its front end is exercised through the binary only"]},
     "C14": {"theorems": ["C14_disambiguate_fresh", "C01_one_implementation"], "engines": [eng_prog],
             "assumptions": ["identifiers are ASCII in the model; non-ASCII names are outside the generated corpus"]},
     "C17": {"theorems": ["C17_gen_exit", "C17_gen_footprint", "C17_failed_package_untouched", "C17_failure_does_not_block_others", "C17_diff_readonly", "C17_diff_exit"],
